@@ -1453,6 +1453,28 @@ let other_ranges =
     (Npos (XI (XO (XI (XI (XI (XI (XI (XI (XI (XI (XI (XI (XI (XI (XI (XI (XO
     (XO (XO (XO XH)))))))))))))))))))))) :: [])))))))))))))))))))))
 
+(** val whitespace_ranges : (n * n) list **)
+
+let whitespace_ranges =
+  ((Npos (XI (XO (XO XH)))), (Npos (XI (XO (XI XH))))) :: (((Npos (XO (XO (XO
+    (XO (XO XH)))))), (Npos (XO (XO (XO (XO (XO XH))))))) :: (((Npos (XI (XO
+    (XI (XO (XO (XO (XO XH)))))))), (Npos (XI (XO (XI (XO (XO (XO (XO
+    XH))))))))) :: (((Npos (XO (XO (XO (XO (XO (XI (XO XH)))))))), (Npos (XO
+    (XO (XO (XO (XO (XI (XO XH))))))))) :: (((Npos (XO (XO (XO (XO (XO (XO
+    (XO (XI (XO (XI (XI (XO XH))))))))))))), (Npos (XO (XO (XO (XO (XO (XO
+    (XO (XI (XO (XI (XI (XO XH)))))))))))))) :: (((Npos (XO (XO (XO (XO (XO
+    (XO (XO (XO (XO (XO (XO (XO (XO XH)))))))))))))), (Npos (XO (XI (XO (XI
+    (XO (XO (XO (XO (XO (XO (XO (XO (XO XH))))))))))))))) :: (((Npos (XO (XO
+    (XO (XI (XO (XI (XO (XO (XO (XO (XO (XO (XO XH)))))))))))))), (Npos (XI
+    (XO (XO (XI (XO (XI (XO (XO (XO (XO (XO (XO (XO
+    XH))))))))))))))) :: (((Npos (XI (XI (XI (XI (XO (XI (XO (XO (XO (XO (XO
+    (XO (XO XH)))))))))))))), (Npos (XI (XI (XI (XI (XO (XI (XO (XO (XO (XO
+    (XO (XO (XO XH))))))))))))))) :: (((Npos (XI (XI (XI (XI (XI (XO (XI (XO
+    (XO (XO (XO (XO (XO XH)))))))))))))), (Npos (XI (XI (XI (XI (XI (XO (XI
+    (XO (XO (XO (XO (XO (XO XH))))))))))))))) :: (((Npos (XO (XO (XO (XO (XO
+    (XO (XO (XO (XO (XO (XO (XO (XI XH)))))))))))))), (Npos (XO (XO (XO (XO
+    (XO (XO (XO (XO (XO (XO (XO (XO (XI XH))))))))))))))) :: [])))))))))
+
 (** val hexd : n -> n **)
 
 let hexd d =
@@ -3631,6 +3653,460 @@ let recorded strip_ansi0 combined keep strip ws =
   let (o, e) = captured combined ws in
   ((render_output strip_ansi0 keep strip o),
   (render_output strip_ansi0 keep strip e))
+
+(** val kind_names : (n list * nat) list **)
+
+let kind_names =
+  (((Npos (XI (XO (XI (XO (XO (XI XH))))))) :: ((Npos (XI (XO (XO (XO (XI (XI
+    XH))))))) :: ((Npos (XI (XO (XI (XO (XI (XI XH))))))) :: ((Npos (XI (XO
+    (XO (XO (XO (XI XH))))))) :: ((Npos (XO (XO (XI (XI (XO (XI
+    XH))))))) :: []))))), O) :: ((((Npos (XI (XO (XI (XO (XO (XI
+    XH))))))) :: ((Npos (XI (XO (XO (XO (XI (XI XH))))))) :: [])),
+    O) :: ((((Npos (XO (XI (XI (XI (XO (XI XH))))))) :: ((Npos (XI (XI (XI
+    (XI (XO (XI XH))))))) :: ((Npos (XI (XO (XI (XI (XO XH)))))) :: ((Npos
+    (XI (XO (XI (XO (XO (XI XH))))))) :: ((Npos (XI (XI (XI (XI (XO (XI
+    XH))))))) :: ((Npos (XO (XO (XI (XI (XO (XI XH))))))) :: [])))))), (S
+    O)) :: ((((Npos (XI (XO (XI (XO (XO (XI XH))))))) :: ((Npos (XI (XI (XO
+    (XO (XI (XI XH))))))) :: ((Npos (XI (XI (XO (XO (XO (XI
+    XH))))))) :: ((Npos (XI (XO (XO (XO (XO (XI XH))))))) :: ((Npos (XO (XO
+    (XO (XO (XI (XI XH))))))) :: ((Npos (XI (XO (XI (XO (XO (XI
+    XH))))))) :: ((Npos (XO (XO (XI (XO (XO (XI XH))))))) :: []))))))), (S (S
+    O))) :: ((((Npos (XI (XO (XI (XO (XO (XI XH))))))) :: ((Npos (XI (XI (XO
+    (XO (XI (XI XH))))))) :: ((Npos (XI (XI (XO (XO (XO (XI
+    XH))))))) :: []))), (S (S O))) :: ((((Npos (XI (XI (XI (XO (XO (XI
+    XH))))))) :: ((Npos (XO (XO (XI (XI (XO (XI XH))))))) :: ((Npos (XI (XI
+    (XI (XI (XO (XI XH))))))) :: ((Npos (XO (XI (XO (XO (XO (XI
+    XH))))))) :: [])))), (S (S (S O)))) :: ((((Npos (XI (XI (XI (XO (XO (XI
+    XH))))))) :: ((Npos (XO (XO (XI (XI (XO (XI XH))))))) :: [])), (S (S (S
+    O)))) :: ((((Npos (XO (XI (XO (XO (XI (XI XH))))))) :: ((Npos (XI (XO (XI
+    (XO (XO (XI XH))))))) :: ((Npos (XI (XI (XI (XO (XO (XI
+    XH))))))) :: ((Npos (XI (XO (XI (XO (XO (XI XH))))))) :: ((Npos (XO (XO
+    (XO (XI (XI (XI XH))))))) :: []))))), (S (S (S (S O))))) :: ((((Npos (XO
+    (XI (XO (XO (XI (XI XH))))))) :: ((Npos (XI (XO (XI (XO (XO (XI
+    XH))))))) :: [])), (S (S (S (S O))))) :: []))))))))
+
+(** val is_ws : n -> bool **)
+
+let is_ws c =
+  in_ranges whitespace_ranges c
+
+(** val is_quant : n -> bool **)
+
+let is_quant c =
+  (||)
+    ((||) (N.eqb c (Npos (XO (XI (XO (XI (XO XH)))))))
+      (N.eqb c (Npos (XI (XI (XO (XI (XO XH))))))))
+    (N.eqb c (Npos (XI (XI (XI (XI (XI XH)))))))
+
+(** val lookup_kind : n list -> (n list * nat) list -> nat option **)
+
+let rec lookup_kind k = function
+| [] -> None
+| p :: r ->
+  let (n0, id) = p in if list_eqb n0 k then Some id else lookup_kind k r
+
+(** val kind_ok : n list -> bool **)
+
+let kind_ok k = match k with
+| [] -> true
+| _ :: _ ->
+  (match lookup_kind k kind_names with
+   | Some _ -> true
+   | None -> false)
+
+(** val span_noparen : n list -> n list * n list **)
+
+let rec span_noparen l = match l with
+| [] -> ([], [])
+| c :: r ->
+  if (||) (N.eqb c (Npos (XO (XO (XO (XI (XO XH)))))))
+       (N.eqb c (Npos (XI (XO (XO (XI (XO XH)))))))
+  then ([], l)
+  else let (a, b) = span_noparen r in ((c :: a), b)
+
+(** val split_mod : n list -> ((n list * n list) * n list) option **)
+
+let split_mod line =
+  match rev line with
+  | [] -> None
+  | n0 :: r1 ->
+    (match n0 with
+     | N0 -> None
+     | Npos p ->
+       (match p with
+        | XI p0 ->
+          (match p0 with
+           | XO p1 ->
+             (match p1 with
+              | XO p2 ->
+                (match p2 with
+                 | XI p3 ->
+                   (match p3 with
+                    | XO p4 ->
+                      (match p4 with
+                       | XH ->
+                         let (inner_rev, rest) = span_noparen r1 in
+                         (match rest with
+                          | [] -> None
+                          | n1 :: l ->
+                            (match n1 with
+                             | N0 -> None
+                             | Npos p5 ->
+                               (match p5 with
+                                | XO p6 ->
+                                  (match p6 with
+                                   | XO p7 ->
+                                     (match p7 with
+                                      | XO p8 ->
+                                        (match p8 with
+                                         | XI p9 ->
+                                           (match p9 with
+                                            | XO p10 ->
+                                              (match p10 with
+                                               | XH ->
+                                                 (match l with
+                                                  | [] -> None
+                                                  | ws :: expr_rev ->
+                                                    if is_ws ws
+                                                    then let inner =
+                                                           rev inner_rev
+                                                         in
+                                                         let cand =
+                                                           match inner_rev with
+                                                           | [] ->
+                                                             Some ([], [])
+                                                           | q :: k_rev ->
+                                                             if is_quant q
+                                                             then Some
+                                                                    (
+                                                                    (rev
+                                                                    k_rev),
+                                                                    (q :: []))
+                                                             else Some
+                                                                    (inner,
+                                                                    [])
+                                                         in
+                                                         (match cand with
+                                                          | Some p11 ->
+                                                            let (k, q) = p11
+                                                            in
+                                                            if kind_ok k
+                                                            then Some
+                                                                   ((
+                                                                   (rev
+                                                                    expr_rev),
+                                                                   k), q)
+                                                            else None
+                                                          | None -> None)
+                                                    else None)
+                                               | _ -> None)
+                                            | _ -> None)
+                                         | _ -> None)
+                                      | _ -> None)
+                                   | _ -> None)
+                                | _ -> None)))
+                       | _ -> None)
+                    | _ -> None)
+                 | _ -> None)
+              | _ -> None)
+           | _ -> None)
+        | _ -> None))
+
+(** val eQUAL : n list **)
+
+let eQUAL =
+  (Npos (XI (XO (XI (XO (XO (XI XH))))))) :: ((Npos (XI (XO (XO (XO (XI (XI
+    XH))))))) :: ((Npos (XI (XO (XI (XO (XI (XI XH))))))) :: ((Npos (XI (XO
+    (XO (XO (XO (XI XH))))))) :: ((Npos (XO (XO (XI (XI (XO (XI
+    XH))))))) :: []))))
+
+(** val extract : n list -> (n list * n list) * n list **)
+
+let extract line =
+  match split_mod line with
+  | Some p ->
+    let (p0, q) = p in
+    let (e, k) = p0 in
+    (match k with
+     | [] ->
+       (match q with
+        | [] -> ((line, eQUAL), [])
+        | _ :: _ -> ((e, eQUAL), q))
+     | _ :: _ -> ((e, k), q))
+  | None -> ((line, eQUAL), [])
+
+type rule =
+| REqual of n list
+| RNoEol of n list
+| REscaped of n list * n list
+| RGlob of n list
+| RRegex of n list
+
+type expectation = { e_rule : rule; e_opt : bool; e_mul : bool }
+
+(** val ends_with_rev : n list -> n list -> bool **)
+
+let rec ends_with_rev suf_rev l_rev =
+  match suf_rev with
+  | [] -> true
+  | s :: sr ->
+    (match l_rev with
+     | [] -> false
+     | x :: lr -> (&&) (N.eqb s x) (ends_with_rev sr lr))
+
+(** val ends_with : n list -> n list -> bool **)
+
+let ends_with suf l =
+  ends_with_rev (rev suf) (rev l)
+
+(** val strip_suffix : n list -> n list -> n list option **)
+
+let strip_suffix suf l =
+  if ends_with suf l
+  then Some (firstn (sub (length l) (length suf)) l)
+  else None
+
+(** val s_NOEOL : n list **)
+
+let s_NOEOL =
+  (Npos (XO (XO (XO (XO (XO XH)))))) :: ((Npos (XO (XO (XO (XI (XO
+    XH)))))) :: ((Npos (XO (XI (XI (XI (XO (XI XH))))))) :: ((Npos (XI (XI
+    (XI (XI (XO (XI XH))))))) :: ((Npos (XI (XO (XI (XI (XO
+    XH)))))) :: ((Npos (XI (XO (XI (XO (XO (XI XH))))))) :: ((Npos (XI (XI
+    (XI (XI (XO (XI XH))))))) :: ((Npos (XO (XO (XI (XI (XO (XI
+    XH))))))) :: ((Npos (XI (XO (XO (XI (XO XH)))))) :: []))))))))
+
+(** val s_ESCAPED : n list **)
+
+let s_ESCAPED =
+  (Npos (XO (XO (XO (XO (XO XH)))))) :: ((Npos (XO (XO (XO (XI (XO
+    XH)))))) :: ((Npos (XI (XO (XI (XO (XO (XI XH))))))) :: ((Npos (XI (XI
+    (XO (XO (XI (XI XH))))))) :: ((Npos (XI (XI (XO (XO (XO (XI
+    XH))))))) :: ((Npos (XI (XO (XO (XO (XO (XI XH))))))) :: ((Npos (XO (XO
+    (XO (XO (XI (XI XH))))))) :: ((Npos (XI (XO (XI (XO (XO (XI
+    XH))))))) :: ((Npos (XO (XO (XI (XO (XO (XI XH))))))) :: ((Npos (XI (XO
+    (XO (XI (XO XH)))))) :: [])))))))))
+
+(** val s_ESCAPED_Q : n list **)
+
+let s_ESCAPED_Q =
+  (Npos (XO (XO (XO (XO (XO XH)))))) :: ((Npos (XO (XO (XI (XI (XI (XO
+    XH))))))) :: ((Npos (XO (XO (XO (XI (XO XH)))))) :: ((Npos (XI (XO (XI
+    (XO (XO (XI XH))))))) :: ((Npos (XI (XI (XO (XO (XI (XI
+    XH))))))) :: ((Npos (XI (XI (XO (XO (XO (XI XH))))))) :: ((Npos (XI (XO
+    (XO (XO (XO (XI XH))))))) :: ((Npos (XO (XO (XO (XO (XI (XI
+    XH))))))) :: ((Npos (XI (XO (XI (XO (XO (XI XH))))))) :: ((Npos (XO (XO
+    (XI (XO (XO (XI XH))))))) :: ((Npos (XO (XO (XI (XI (XI (XO
+    XH))))))) :: ((Npos (XI (XO (XO (XI (XO XH)))))) :: [])))))))))))
+
+(** val s_ESC : n list **)
+
+let s_ESC =
+  (Npos (XO (XO (XO (XO (XO XH)))))) :: ((Npos (XO (XO (XO (XI (XO
+    XH)))))) :: ((Npos (XI (XO (XI (XO (XO (XI XH))))))) :: ((Npos (XI (XI
+    (XO (XO (XI (XI XH))))))) :: ((Npos (XI (XI (XO (XO (XO (XI
+    XH))))))) :: ((Npos (XI (XO (XO (XI (XO XH)))))) :: [])))))
+
+(** val s_ESC_Q : n list **)
+
+let s_ESC_Q =
+  (Npos (XO (XO (XO (XO (XO XH)))))) :: ((Npos (XO (XO (XI (XI (XI (XO
+    XH))))))) :: ((Npos (XO (XO (XO (XI (XO XH)))))) :: ((Npos (XI (XO (XI
+    (XO (XO (XI XH))))))) :: ((Npos (XI (XI (XO (XO (XI (XI
+    XH))))))) :: ((Npos (XI (XI (XO (XO (XO (XI XH))))))) :: ((Npos (XO (XO
+    (XI (XI (XI (XO XH))))))) :: ((Npos (XI (XO (XO (XI (XO
+    XH)))))) :: [])))))))
+
+(** val expression_as_escaped : n list -> n list option **)
+
+let expression_as_escaped e =
+  match strip_suffix s_ESCAPED e with
+  | Some x -> Some x
+  | None ->
+    (match strip_suffix s_ESCAPED_Q e with
+     | Some x -> Some x
+     | None ->
+       (match strip_suffix s_ESC e with
+        | Some x -> Some x
+        | None -> strip_suffix s_ESC_Q e))
+
+(** val make :
+    (n list -> n list) -> (n list -> bool) -> (n list -> n list) -> nat -> n
+    list -> rule option **)
+
+let make regex_prep regex_compiles glob_norm kind e =
+  match kind with
+  | O -> Some (REqual e)
+  | S n0 ->
+    (match n0 with
+     | O -> Some (RNoEol e)
+     | S n1 ->
+       (match n1 with
+        | O ->
+          let e' = match strip_suffix s_NOEOL e with
+                   | Some x -> x
+                   | None -> e
+          in
+          (match decode e' with
+           | Some b -> Some (REscaped (e', b))
+           | None -> None)
+        | S n2 ->
+          (match n2 with
+           | O ->
+             (match expression_as_escaped e with
+              | Some x ->
+                (match decode x with
+                 | Some b ->
+                   (match utf8_decode b with
+                    | Some t -> Some (RGlob (glob_norm t))
+                    | None -> None)
+                 | None -> None)
+              | None -> Some (RGlob (glob_norm e)))
+           | S _ ->
+             let p = regex_prep e in
+             if regex_compiles p then Some (RRegex p) else None)))
+
+type parsed =
+| POk of expectation
+| PErr
+
+(** val parse :
+    (n list -> n list) -> (n list -> bool) -> (n list -> n list) -> n list ->
+    parsed **)
+
+let parse regex_prep regex_compiles glob_norm line =
+  let (p, q) = extract line in
+  let (e, k) = p in
+  let mul1 =
+    match q with
+    | [] -> false
+    | c :: l ->
+      (match l with
+       | [] ->
+         (||) (N.eqb c (Npos (XO (XI (XO (XI (XO XH)))))))
+           (N.eqb c (Npos (XI (XI (XO (XI (XO XH)))))))
+       | _ :: _ -> false)
+  in
+  let opt0 =
+    match q with
+    | [] -> false
+    | c :: l ->
+      (match l with
+       | [] ->
+         (||) (N.eqb c (Npos (XO (XI (XO (XI (XO XH)))))))
+           (N.eqb c (Npos (XI (XI (XI (XI (XI XH)))))))
+       | _ :: _ -> false)
+  in
+  (match lookup_kind k kind_names with
+   | Some id ->
+     (match make regex_prep regex_compiles glob_norm id e with
+      | Some r -> POk { e_rule = r; e_opt = opt0; e_mul = mul1 }
+      | None -> PErr)
+   | None -> PErr)
+
+(** val quant_text : bool -> bool -> n list **)
+
+let quant_text opt0 mul1 =
+  if opt0
+  then if mul1
+       then (Npos (XO (XI (XO (XI (XO XH)))))) :: []
+       else (Npos (XI (XI (XI (XI (XI XH)))))) :: []
+  else if mul1 then (Npos (XI (XI (XO (XI (XO XH)))))) :: [] else []
+
+(** val paren : n list -> n list -> n list **)
+
+let paren kind q =
+  app ((Npos (XO (XO (XO (XO (XO XH)))))) :: ((Npos (XO (XO (XO (XI (XO
+    XH)))))) :: []))
+    (app kind (app q ((Npos (XI (XO (XO (XI (XO XH)))))) :: [])))
+
+(** val k_ESCAPED : n list **)
+
+let k_ESCAPED =
+  (Npos (XI (XO (XI (XO (XO (XI XH))))))) :: ((Npos (XI (XI (XO (XO (XI (XI
+    XH))))))) :: ((Npos (XI (XI (XO (XO (XO (XI XH))))))) :: ((Npos (XI (XO
+    (XO (XO (XO (XI XH))))))) :: ((Npos (XO (XO (XO (XO (XI (XI
+    XH))))))) :: ((Npos (XI (XO (XI (XO (XO (XI XH))))))) :: ((Npos (XO (XO
+    (XI (XO (XO (XI XH))))))) :: []))))))
+
+(** val k_NOEOL : n list **)
+
+let k_NOEOL =
+  (Npos (XO (XI (XI (XI (XO (XI XH))))))) :: ((Npos (XI (XI (XI (XI (XO (XI
+    XH))))))) :: ((Npos (XI (XO (XI (XI (XO XH)))))) :: ((Npos (XI (XO (XI
+    (XO (XO (XI XH))))))) :: ((Npos (XI (XI (XI (XI (XO (XI
+    XH))))))) :: ((Npos (XO (XO (XI (XI (XO (XI XH))))))) :: [])))))
+
+(** val k_GLOB : n list **)
+
+let k_GLOB =
+  (Npos (XI (XI (XI (XO (XO (XI XH))))))) :: ((Npos (XO (XO (XI (XI (XO (XI
+    XH))))))) :: ((Npos (XI (XI (XI (XI (XO (XI XH))))))) :: ((Npos (XO (XI
+    (XO (XO (XO (XI XH))))))) :: [])))
+
+(** val k_REGEX : n list **)
+
+let k_REGEX =
+  (Npos (XO (XI (XO (XO (XI (XI XH))))))) :: ((Npos (XI (XO (XI (XO (XO (XI
+    XH))))))) :: ((Npos (XI (XI (XI (XO (XO (XI XH))))))) :: ((Npos (XI (XO
+    (XI (XO (XO (XI XH))))))) :: ((Npos (XO (XO (XO (XI (XI (XI
+    XH))))))) :: []))))
+
+(** val last_is_rparen : n list -> bool **)
+
+let last_is_rparen t =
+  match rev t with
+  | [] -> false
+  | n0 :: _ ->
+    (match n0 with
+     | N0 -> false
+     | Npos p ->
+       (match p with
+        | XI p0 ->
+          (match p0 with
+           | XO p1 ->
+             (match p1 with
+              | XO p2 ->
+                (match p2 with
+                 | XI p3 ->
+                   (match p3 with
+                    | XO p4 -> (match p4 with
+                                | XH -> true
+                                | _ -> false)
+                    | _ -> false)
+                 | _ -> false)
+              | _ -> false)
+           | _ -> false)
+        | _ -> false))
+
+(** val render_exp : mode -> expectation -> n list **)
+
+let render_exp m x =
+  let q = quant_text x.e_opt x.e_mul in
+  (match x.e_rule with
+   | REqual t ->
+     let b = utf8_encode t in
+     let rendered = escaped_printable m b in
+     if has_unprintable m b
+     then app rendered (paren k_ESCAPED q)
+     else if last_is_rparen rendered
+          then app rendered (paren eQUAL q)
+          else (match q with
+                | [] -> rendered
+                | _ :: _ -> app rendered (paren [] q))
+   | RNoEol t -> app (escaped_printable m (utf8_encode t)) (paren k_NOEOL q)
+   | REscaped (orig, _) -> app orig (paren k_ESCAPED q)
+   | RGlob p -> app (escaped_printable m (utf8_encode p)) (paren k_GLOB q)
+   | RRegex p -> app (escaped_printable m (utf8_encode p)) (paren k_REGEX q))
+
+(** val matches_content : rule -> n list -> bool option **)
+
+let matches_content x content =
+  match x with
+  | REqual t -> Some (list_eqb (utf8_encode t) content)
+  | RNoEol t -> Some (list_eqb (utf8_encode t) content)
+  | REscaped (_, b) -> Some (list_eqb b content)
+  | _ -> None
 
 (** val make_exp : bool -> bool -> (nat -> bool) -> nat exp **)
 
